@@ -55,6 +55,8 @@ func verifSetKind(vm *Otto, name string, k int, maxStr int) {
 		vm.Run(name + " = function(a, b) { return a }")
 	case 8:
 		vm.Run(name + " = new String('ab')")
+	case 10:
+		// bound by the caller to the object that owns the function (e.g. RegExp.prototype)
 	default:
 		l := verifNondetFloat64()
 		verifAssume(!(l >= 4) && !(l <= -1)) // (-1, 4) or NaN: huge array-likes are outside the claim
@@ -63,7 +65,7 @@ func verifSetKind(vm *Otto, name string, k int, maxStr int) {
 	}
 }
 
-const verifNumKinds = 10
+const verifNumKinds = 11
 
 func verifSplit(s string) []string {
 	var out []string
@@ -99,7 +101,18 @@ func VerifH_C02_surface() {
 	fn := fns[lo+verifChoose(hi-lo)]
 	nargs := verifChoose(verifParam("maxargs", 1) + 1)
 	maxStr := verifParam("maxstr", 2)
-	verifSetKind(vm, "T", verifChoose(verifNumKinds), maxStr)
+	tk := verifChoose(verifNumKinds)
+	verifSetKind(vm, "T", tk, maxStr)
+	if tk == 10 {
+		owner := "this"
+		for i := len(fn) - 1; i >= 0; i-- {
+			if fn[i] == '.' {
+				owner = fn[:i]
+				break
+			}
+		}
+		vm.Run("T = " + owner)
+	}
 	script := fn + ".call(T"
 	if nargs >= 1 {
 		verifSetKind(vm, "A", verifChoose(verifNumKinds), maxStr)
@@ -121,6 +134,54 @@ func VerifH_C02_surface() {
 	verifAssert(kind == verifNormal, "Run returns (value or error): no Go panic escapes")
 	_ = val
 	// the runtime stays usable
+	k2, _ := verifCatch(func() {
+		v, e := vm.Run("1+1")
+		if e == nil {
+			f, _ := v.ToFloat()
+			verifAssert(f == 2, "runtime usable after the call")
+		}
+	})
+	verifAssert(k2 == verifNormal, "follow-up Run does not panic")
+}
+
+// Functions for which the second argument matters; receivers of the kind each
+// expects, two arguments of 6 kinds each.
+var verifTwoArgFns = []struct {
+	fn   string
+	recv int // verifSetKind kind of the receiver
+}{
+	{"String.prototype.replace", 4}, {"String.prototype.split", 4}, {"String.prototype.slice", 4},
+	{"String.prototype.substring", 4}, {"String.prototype.substr", 4}, {"String.prototype.indexOf", 4},
+	{"String.prototype.lastIndexOf", 4}, {"String.prototype.concat", 4}, {"String.prototype.match", 4},
+	{"Function.prototype.apply", 7}, {"Function.prototype.call", 7}, {"Function.prototype.bind", 7},
+	{"Array.prototype.slice", 6}, {"Array.prototype.splice", 6}, {"Array.prototype.indexOf", 6},
+	{"Array.prototype.lastIndexOf", 6}, {"Array.prototype.concat", 6}, {"Array.prototype.join", 6},
+	{"Array.prototype.reduce", 6}, {"Array.prototype.map", 6},
+	{"Object.defineProperty", 5}, {"Object.create", 5}, {"Object.defineProperties", 5},
+	{"JSON.stringify", 5}, {"JSON.parse", 5},
+	{"Number.prototype.toString", 3}, {"Number.prototype.toFixed", 3}, {"Number.prototype.toPrecision", 3},
+	{"RegExp.prototype.exec", 5}, {"RegExp.prototype.test", 5}, {"Date.UTC", 5},
+}
+
+var verifArgKinds = []int{0, 3, 4, 5, 6, 7}
+
+// C02-H1b: two-argument calls of the built-ins whose second argument is
+// significant.
+func VerifH_C02_two_args() {
+	vm := New()
+	f := verifTwoArgFns[verifChoose(len(verifTwoArgFns))]
+	maxStr := verifParam("maxstr", 2)
+	verifSetKind(vm, "T", f.recv, maxStr)
+	verifSetKind(vm, "A", verifArgKinds[verifChoose(len(verifArgKinds))], maxStr)
+	verifSetKind(vm, "B", verifArgKinds[verifChoose(len(verifArgKinds))], maxStr)
+	script := f.fn + ".call(T, A, B)"
+	verifLog("script: " + script)
+	kind, val := verifCatch(func() { vm.Run(script) })
+	if kind != verifNormal {
+		verifLog(fmt.Sprintf("escaped: %v", val))
+	}
+	verifCover("called")
+	verifAssert(kind == verifNormal, "Run returns (value or error): no Go panic escapes")
 	k2, _ := verifCatch(func() {
 		v, e := vm.Run("1+1")
 		if e == nil {
